@@ -89,6 +89,21 @@ pub fn init_math(interp: &mut Interpreter) -> Gc<JsObject> {
     // Random
     interp.register_method(&math_obj, "random", math_random, 0);
 
+    // Math[Symbol.toStringTag]
+    let tag_key = PropertyKey::Symbol(Box::new(crate::value::JsSymbol::new(
+        interp.well_known_symbols.to_string_tag,
+        Some(interp.intern("Symbol.toStringTag")),
+    )));
+    math_obj.borrow_mut().define_property(
+        tag_key,
+        crate::value::Property::with_attributes(
+            JsValue::String(crate::value::JsString::from("Math")),
+            false,
+            false,
+            true,
+        ),
+    );
+
     // Root Math object and bind to global
     interp.root_guard.guard(math_obj.clone());
     let math_key = PropertyKey::String(interp.intern("Math"));
